@@ -17,7 +17,7 @@ Proof.
   - rewrite sizeZ_cons_eqb.
     destruct inc, eq; cbn [negb];
     repeat match goal with |- context [if ?c then _ else _] => destruct c end;
-    try reflexivity; unfold nthQ; simpl; try reflexivity; try field.
+    try reflexivity; unfold nthQ; simpl; try reflexivity; try (unfold Qdiv; ring); try field.
 Qed.
 
 Section EqualIncrements.
